@@ -220,7 +220,7 @@ func runC18(c *core.Ctx) {
 		} else {
 			header, body, _ := g.LoopBlocks(loop)
 			elem := "each(" + fn.Canon(loop.X) + ")"
-			listOK := fn.Canon(loop.X) == "deps"
+			listOK := fn.Canon(loop.X) == "deps" || fn.Canon(loop.X) == "append(recv.orderedDeps(p0), p0)"
 			// iteration list: deps := orderedDeps(name); deps = append(deps, name)
 			if obj := fn.ObjOf(loop.X); obj != nil {
 				ds := fn.DefSites(obj)
@@ -229,7 +229,8 @@ func runC18(c *core.Ctx) {
 					cs = append(cs, d.Canon)
 				}
 				sort.Strings(cs)
-				listOK = len(cs) == 2 && cs[0] == "append(deps, p0)" && cs[1] == "recv.orderedDeps(p0)"
+				listOK = len(cs) == 2 && cs[0] == "append("+obj.Name()+", p0)" && cs[1] == "recv.orderedDeps(p0)" ||
+					len(cs) == 1 && cs[0] == "append(recv.orderedDeps(p0), p0)"
 			}
 			c.Check(listOK, "R3", "func=initModule:list", loop.Pos(), "iteration list = orderedDeps(name) followed by name", 1)
 			// guard map: the map tested for the skip; find `M[n]` conditions in loop
@@ -463,6 +464,13 @@ func freshSlice(fn *an.Fn, e ast.Expr, depth int) (bool, string) {
 		}
 		if tv, ok := fn.Info().Types[x.Fun]; ok && tv.IsType() && len(x.Args) == 1 { // conversion
 			return freshSlice(fn, x.Args[0], depth+1)
+		}
+		// standard library: slices.AppendSeq(dst, seq) appends to dst; slices.Collect / Sorted / Clone allocate
+		if an.ObjIs(o, "slices", "AppendSeq") && len(x.Args) == 2 {
+			return freshSlice(fn, x.Args[0], depth+1)
+		}
+		if an.ObjIs(o, "slices", "Collect") || an.ObjIs(o, "slices", "Sorted") || an.ObjIs(o, "slices", "Clone") {
+			return true, ""
 		}
 		return false, "result of " + fn.Canon(x.Fun) + " may alias"
 	case *ast.Ident:
@@ -804,9 +812,18 @@ func c18WrapperDeps(c *core.Ctx, pkg *packages.Package) {
 	// DependenciesForModule is the transitive closure: its elements come from listDeps, which recurses over the deps of every dep
 	if fn := an.FindFunc(pkg, "Manager.listDeps"); fn != nil {
 		c.Analysed(fn.String())
-		rec := len(fn.CallsTo(true, "modules", "(*Manager).listDeps")) > 0
-		loops := rangeLoops(fn, "recv.modules[p0].deps")
-		c.Check(rec && len(loops) >= 1, "R10", "func=listDeps:transitive", fn.Pos(), fmt.Sprintf("listDeps ranges over the module's own dependency list and recurses into each dependency (recursion=%v, loops over recv.modules[p0].deps=%d): the query is transitive", rec, len(loops)), 1)
+		rec := false
+		args := []string{}
+		for _, call := range fn.CallsTo(true, "modules", "(*Manager).listDeps") {
+			if len(call.Expr.Args) == 1 {
+				a := call.In.Canon(call.Expr.Args[0])
+				args = append(args, a)
+				if a == "each(recv.modules[p0].deps)" || strings.HasPrefix(a, "recv.modules[p0].deps[") {
+					rec = true
+				}
+			}
+		}
+		c.Check(rec, "R10", "func=listDeps:transitive", fn.Pos(), fmt.Sprintf("listDeps recurses into the elements of the module's own dependency list (recursive calls on %v): the query is transitive", args), 1)
 	} else {
 		c.Miss("R10", "func=Manager.listDeps", "not found")
 	}
